@@ -177,7 +177,7 @@ class ProgBase(plumpy.Process):
         if kind == 'wait':
             return ps.Wait(self._next_fn(i), ret[1], copy.deepcopy(ret[2]))
         if kind == 'value':
-            return ret[1]
+            return special(ret[1])
         if kind == 'stop':
             return ps.Stop(ret[1], ret[2])
         if kind == 'unsucc':
@@ -298,12 +298,30 @@ class NoCopy:
         return '@NOCOPY'
 
 
+class Handle:
+    """An awaitable that is nobody's business to await (the handle of work started elsewhere), returned as a plain value."""
+
+    def __await__(self):
+        raise RuntimeError('the handle returned as a plain value was awaited')
+        yield  # pragma: no cover
+
+    def __eq__(self, other):
+        return isinstance(other, Handle)
+
+    __hash__ = object.__hash__
+
+    def __repr__(self):
+        return '@AWAITABLE'
+
+
 def special(value):
     """Markers in generated cases standing for values with an unusual ``==``."""
     if isinstance(value, str) and value == '@ANYEQ':
         return AnyEq()
     if isinstance(value, str) and value == '@NOBOOL':
         return NoBoolEq()
+    if isinstance(value, str) and value == '@AWAITABLE':
+        return Handle()
     if isinstance(value, str) and value == '@NOCOPY':
         return NoCopy()
     if isinstance(value, str) and value == '@T12':
